@@ -38,7 +38,7 @@ class YowGroupsProtocolLayer(YowProtocolLayer):
             elif entity.__class__ == CreateGroupsIqProtocolEntity:
                 self._sendIq(entity, self.onCreateGroupSuccess, self.onCreateGroupFailed)
             elif entity.__class__ == ParticipantsGroupsIqProtocolEntity:
-                self._sendIq(entity, self.onGetParticipantsResult)
+                self._sendIq(entity, self.onGetParticipantsResult, self.onGetParticipantsFailed)
             elif entity.__class__ == AddParticipantsIqProtocolEntity:
                 self._sendIq(entity, self.onAddParticipantsSuccess, self.onAddParticipantsFailed)
             elif entity.__class__ == PromoteParticipantsIqProtocolEntity:
@@ -74,6 +74,10 @@ class YowGroupsProtocolLayer(YowProtocolLayer):
 
     def onGetParticipantsResult(self, node, originalIqEntity):
         self.toUpper(ListParticipantsResultIqProtocolEntity.fromProtocolTreeNode(node))
+
+    def onGetParticipantsFailed(self, node, originalIqEntity):
+        logger.error("Group get participants failed")
+        self.toUpper(ErrorIqProtocolEntity.fromProtocolTreeNode(node))
 
     def onAddParticipantsSuccess(self, node, originalIqEntity):
         logger.info("Group add participants success")
